@@ -63,10 +63,19 @@ Definition calls_ok (c : loadcase) : bool :=
       match lc_expect c with Ok _ => Nat.eqb (List.length impl) (List.length pot) | Err _ => true end
   end.
 
+(* Python's view of subclassing (the MRO in c_ancestors) contains the class itself and is closed under registered
+   direct bases: hypothesis of C02_constructor_accepts_conforming *)
+Definition ancestors_okb (reg : registry) : bool :=
+  forallb (fun k => umem (c_name k) (c_ancestors k) &&
+                    forallb (fun m => match find_cls reg m with
+                                      | Some km => forallb (fun a => umem a (c_ancestors k)) (c_ancestors km)
+                                      | None => true end) (c_bases k)) reg.
+
 (* the model agrees with the implementation's outcome, and the case satisfies the hypotheses of the theorems *)
 Definition loadcase_ok (c : loadcase) : bool :=
   outcome_eqb (run_load c) (lc_expect c) && calls_ok c
-  && oracle_wfb (lc_oracle c) && wf_registryb (interp_reg (lc_oracle c) (lc_specs c)).
+  && oracle_wfb (lc_oracle c) && wf_registryb (interp_reg (lc_oracle c) (lc_specs c))
+  && ancestors_okb (interp_reg (lc_oracle c) (lc_specs c)).
 
 Fixpoint lmism_from (i : N) (l : list loadcase) : list N :=
   match l with
